@@ -156,7 +156,7 @@ def _compile_path_pattern(pattern, mode=S_REWRITE):
     full_pattern += sep.join(processed)
     if mode != S_STRICT:
         full_pattern += '/*'
-    regex = re.compile(full_pattern + '$')
+    regex = re.compile(full_pattern + r'\Z')
     return regex, var_converter_map
 
 
